@@ -20,8 +20,8 @@ INVS = ['NoSetLeak', 'SolutionCurrent', 'SolveUsesCurrent', 'CacheCoherent']
 PROPS = ['MisuseIsolated', 'Model2Isolated']
 
 
-def consts(K, sets, steps, m2=True, closing=False):
-    return dict(K=tla(K), SetChoices='{' + ', '.join(tla(s) for s in sets) + '}', ResetLists=tla(set(ALL_LISTS)),
+def consts(K, sets, steps, m2=True, closing=False, late=True):
+    return dict(WithLate=tla(late), K=tla(K), SetChoices='{' + ', '.join(tla(s) for s in sets) + '}', ResetLists=tla(set(ALL_LISTS)),
                 MaxSteps=tla(steps), WithModel2=tla(m2), Closing=tla(closing))
 
 
